@@ -150,6 +150,8 @@ type c15Slot struct {
 	cliRst     bool
 	cliRstStep int
 	enteredAtRst bool
+	rstWhileBlocked bool
+	rstAfterGoAwayErr bool
 	srvEnded   bool
 	srvRst     bool
 	rstCode    ErrCode
@@ -179,6 +181,7 @@ type c15Mon struct {
 	goAwayErr    bool
 	illegal      bool // the client has left the protocol (stream-id reuse …): count-based clauses are off
 	blocked      bool // the harness is not reading: the server's writes may be stuck
+	everBlocked  bool
 	feat         map[string]bool
 }
 
@@ -208,7 +211,7 @@ func (m *c15Mon) observe(fs []c15Frame) {
 				m.fail("stream-state/"+name+"-after-own-END_STREAM"+c15ReuseTag(sl), "server sent %v after it had sent END_STREAM on stream %d; history:%s", f, f.Stream, m.history())
 			case sl.srvRst:
 				m.fail("stream-state/"+name+"-after-own-RST_STREAM"+c15ReuseTag(sl), "server sent %v after it had sent RST_STREAM(%v) on stream %d; history:%s", f, sl.rstCode, f.Stream, m.history())
-			case sl.cliRst && f.Step > sl.cliRstStep:
+			case sl.cliRst && f.Step > sl.cliRstStep && !sl.rstWhileBlocked && !sl.rstAfterGoAwayErr:
 				m.fail("stream-state/"+name+"-after-client-RST_STREAM"+c15ReuseTag(sl), "server sent %v on stream %d although the client's RST_STREAM had been delivered at step %d; history:%s", f, f.Stream, sl.cliRstStep, m.history())
 			}
 			if sl != nil {
@@ -300,7 +303,7 @@ func (m *c15Mon) quiescent() {
 			if hs.Entered > 0 {
 				m.fail("malformed/reached-handler/"+c15KindClass(sl.kind), "request %q on stream %d reached the handler; history:%s", sl.kind, sl.id, m.history())
 			}
-			if sl.srvRst && sl.rstCode != ErrCodeProtocol && sl.rstCode != ErrCodeRefusedStream && !sl.srvEnded && !sl.cliRst {
+			if sl.srvRst && sl.rstCode != ErrCodeProtocol && sl.rstCode != ErrCodeRefusedStream && !sl.srvEnded && !sl.cliRst && !m.illegal {
 				m.fail("malformed/wrong-error-code/"+c15KindClass(sl.kind), "request %q on stream %d was reset with %v, want PROTOCOL_ERROR; history:%s", sl.kind, sl.id, sl.rstCode, m.history())
 			}
 			if sl.status != "" && !strings.HasPrefix(sl.status, "4") {
@@ -330,7 +333,7 @@ func (m *c15Mon) quiescent() {
 				m.fail("limit/stream-beyond-limit-not-refused", "stream %d was opened beyond the advertised limit %d and was not refused (srvRst=%v code=%v); history:%s", sl.id, m.limit, sl.srvRst, sl.rstCode, m.history())
 			}
 		}
-		if sl.cliRst && !sl.enteredAtRst && hs.Entered > 0 {
+		if sl.cliRst && !sl.enteredAtRst && !sl.rstAfterGoAwayErr && hs.Entered > 0 {
 			m.fail("handlers/queued-handler-of-reset-stream-ran", "stream %d was reset by the client before its handler started, yet the handler ran later; entries: %v history:%s", sl.id, s.enters, m.history())
 		}
 	}
@@ -339,7 +342,11 @@ func (m *c15Mon) quiescent() {
 			m.fail("ping/not-acknowledged", "%d PING(s) unanswered at quiescence (first %x); history:%s", len(m.pings), m.pings[0], m.history())
 		}
 		if m.settingsAcks != m.settingsSent {
-			m.fail("settings-ack/count-differs", "client sent %d SETTINGS frames, server acknowledged %d at quiescence; history:%s", m.settingsSent, m.settingsAcks, m.history())
+			sig := "settings-ack/count-differs"
+			if m.everBlocked {
+				sig += "/after-client-stopped-reading"
+			}
+			m.fail(sig, "client sent %d SETTINGS frames, server acknowledged %d at quiescence; history:%s", m.settingsSent, m.settingsAcks, m.history())
 		}
 	}
 }
@@ -363,7 +370,7 @@ func c15ParseCfg(cfg string) c15srvOpts {
 		case "rr", "7540", "rand":
 			o.Sched = p
 		case "blk":
-			o.ReadBuf = 64
+			o.ReadBuf = 1
 		}
 	}
 	return o
@@ -443,7 +450,7 @@ func c15Exec(t testing.TB, w *vx.W, cs c15Case) {
 					open++
 				}
 			}
-			nsl.beyond = !m.illegal && open >= m.limit
+			nsl.beyond = !m.illegal && !m.blocked && open >= m.limit
 			if nsl.beyond {
 				m.feat["beyond-limit"] = true
 			}
@@ -461,6 +468,8 @@ func c15Exec(t testing.TB, w *vx.W, cs c15Case) {
 			}
 			sl.cliRst = true
 			sl.cliRstStep = s.step
+			sl.rstWhileBlocked = m.blocked
+			sl.rstAfterGoAwayErr = m.goAwayErr
 			sl.enteredAtRst = s.hstate(sl.key).Entered > 0
 			if !sl.enteredAtRst && !sl.malformed() && !sl.beyond && !sl.srvRst {
 				m.feat["reset-before-handler-start"] = true
@@ -513,10 +522,12 @@ func c15Exec(t testing.TB, w *vx.W, cs c15Case) {
 			// the client stops reading and its receive buffer is tiny
 			s.cli.SetReadBufferSize(blkSize)
 			m.blocked = true
+			m.everBlocked = true
 			m.feat["client-not-reading"] = true
 			continue
 		case kind == "UNB":
 			m.blocked = false
+			s.cli.SetReadBufferSize(1 << 30)
 		default:
 			panic("unknown event " + ev)
 		}
@@ -536,6 +547,22 @@ func c15Exec(t testing.TB, w *vx.W, cs c15Case) {
 						break
 					}
 				}
+			}
+		}
+		m.quiescent()
+		if w.Failed() {
+			return
+		}
+	}
+	if m.blocked && !s.closed && !s.writeErr {
+		// never leave a case with the server's writer stuck: drain and evaluate
+		m.blocked = false
+		s.cli.SetReadBufferSize(1 << 30)
+		for i := 0; i < 64; i++ {
+			fs := s.settle()
+			m.observe(fs)
+			if len(fs) == 0 {
+				break
 			}
 		}
 		m.quiescent()
@@ -581,34 +608,63 @@ func TestVerif_C15(t *testing.T) {
 		c.Rule(fmt.Sprintf("every statically legal sequence of 1..%d events (shortest first) over the menu {H (request, END_STREAM), Ho (request with open body), Hb:k (malformed request), and per stream slot i<=%d: R_i client RST_STREAM, W_i handler Write+Flush, F_i handler returns, P_i handler panics, D_i DATA+END_STREAM, X_i second HEADERS on the stream id (trailers, or an id re-use), PING (<=2), SETTINGS (<=2)}, for MAX_CONCURRENT_STREAMS 1 and 2 (default RFC 9218 scheduler; the other three schedulers one level shallower); each case runs on a fresh real server in its own synctest bubble, quiescence after every event; a case is non-trivial when all its events were applicable at run time (handler commands need a running handler)", depth, c15MaxSlots))
 		c.Assume("connection-specific header fields (connection, te!=trailers, transfer-encoding, keep-alive, proxy-connection, upgrade) are answered with an HTTP 4xx response instead of RST_STREAM; RFC 9113 §8.1.1 allows a response before closing the stream, so that is accepted as rejection (the handler must still never run)")
 		c.Assume("PING / SETTINGS acknowledgement is required at quiescence only while the server has neither closed the connection nor sent GOAWAY with an error code")
+		c.Assume("after the server has sent GOAWAY with an error code it discards every incoming frame (and closes the connection within a second); client RST_STREAMs sent after that point are not expected to take effect")
 		c.Assume("clauses that count the client's open streams (refusal beyond the limit, rejection at quiescence) are switched off after the client re-uses a stream id; the no-frames-after-close, handler-bound, PING and SETTINGS clauses stay on")
 		core := []string{"upper", "conn:te"}
 		for _, cfg := range []string{"m1", "m2"} {
 			cfg := cfg
-			vx.Enumerate(c, "core-"+cfg, vx.Opts{Serial: true, Crumb: true}, func(yield func(c15Case) bool) {
+			vx.Enumerate(c, "core-"+cfg, vx.Opts{Serial: true, Crumb: true}, func(yield0 func(c15Case) bool) {
+				yield := c15Yield(c, yield0)
 				c15Gen(cfg, depth, core, false, nil, yield)
 			}, func(w *vx.W, cs c15Case) { c15RunCase(c, w, cs) })
 		}
 		for _, cfg := range []string{"m1-rr", "m2-7540", "m2-rand", "m2-rr"} {
 			cfg := cfg
-			vx.Enumerate(c, "sched-"+cfg, vx.Opts{Serial: true, Crumb: true}, func(yield func(c15Case) bool) {
+			vx.Enumerate(c, "sched-"+cfg, vx.Opts{Serial: true, Crumb: true}, func(yield0 func(c15Case) bool) {
+				yield := c15Yield(c, yield0)
 				c15Gen(cfg, depth-1, core, false, nil, yield)
 			}, func(w *vx.W, cs c15Case) { c15RunCase(c, w, cs) })
 		}
+		// seeds: start states that depth-bounded search from the empty connection reaches too late
+		sd := vx.Pick(c, 3, 4)
+		type seed struct {
+			cfg string
+			pre []string
+			blk bool
+		}
+		for i, sdv := range []seed{
+			{"m1", []string{"H", "R1", "H"}, false},      // a handler runs for a reset stream, the next request is queued
+			{"m2", []string{"H", "H", "R1", "H"}, false}, // same with limit 2
+			{"m1", []string{"Ho", "W1"}, false},          // response under way, request body still open
+			{"m2", []string{"Ho", "W1", "H"}, false},
+			{"m2-blk", []string{"BLK", "PING"}, true},     // client not reading: the server's writer is stuck in a flush
+			{"m2-blk", []string{"H", "BLK", "W1"}, true},  // … stuck with a response in flight
+		} {
+			sdv := sdv
+			vx.Enumerate(c, fmt.Sprintf("seed%d-%s", i, sdv.cfg), vx.Opts{Serial: true, Crumb: true}, func(yield0 func(c15Case) bool) {
+				yield := c15Yield(c, yield0)
+				if !yield(c15Case{Cfg: sdv.cfg, Ev: sdv.pre}) {
+					return
+				}
+				c15Gen(sdv.cfg, sd, core, sdv.blk, sdv.pre, yield)
+			}, func(w *vx.W, cs c15Case) { c15RunCase(c, w, cs) })
+		}
+		c.Assume("while the harness does not read (events BLK…UNB) frames the server had already handed to its writer may surface later: the after-client-RST clause is not applied to resets sent in that window, and the at-quiescence clauses are evaluated after the harness has drained the connection again")
 		// every malformed kind in every short context
 		var kinds []string
 		for k := range c15Malformed {
 			kinds = append(kinds, k)
 		}
 		sort.Strings(kinds)
-		vx.Enumerate(c, "malformed-kinds", vx.Opts{Serial: true, Crumb: true}, func(yield func(c15Case) bool) {
+		vx.Enumerate(c, "malformed-kinds", vx.Opts{Serial: true, Crumb: true}, func(yield0 func(c15Case) bool) {
+				yield := c15Yield(c, yield0)
 			for _, cfg := range []string{"m1", "m2"} {
 				for _, k := range kinds {
 					// contexts: up to 2 core events before, up to 1 after
 					if !yield(c15Case{Cfg: cfg, Ev: []string{"Hb:" + k}}) {
 						return
 					}
-					ok := c15Gen(cfg, 2, nil, false, nil, func(pre c15Case) bool {
+					ok := c15Gen(cfg, vx.Pick(c, 1, 2), nil, false, nil, func(pre c15Case) bool {
 						if len(pre.Ev) >= 1 && c15CountH(pre.Ev) >= c15MaxSlots {
 							return true
 						}
@@ -625,6 +681,19 @@ func TestVerif_C15(t *testing.T) {
 			}
 		}, func(w *vx.W, cs c15Case) { c15RunCase(c, w, cs) })
 	})
+}
+
+// c15Yield stops a generator once the internal deadline has passed (the check
+// is made here because every shard sees every generated case).
+func c15Yield[T any](c *vx.Ctx, yield func(T) bool) func(T) bool {
+	n := 0
+	return func(x T) bool {
+		n++
+		if n&127 == 0 && c.Expired() {
+			return false
+		}
+		return yield(x)
+	}
 }
 
 func c15CountH(evs []string) int {
